@@ -103,7 +103,7 @@ def aspect_of(problem):
     return "safety"
 
 
-ALL_ASPECTS = frozenset(["leak", "safety", "credits", "credits-over", "credits-under", "credits-repeat", "count", "panic", "reclaim", "reporting", "once", "weak", "unwind", "timing", "overmark", "overmark-strong"])
+ALL_ASPECTS = frozenset(["stw", "leak", "safety", "credits", "credits-over", "credits-under", "credits-repeat", "count", "panic", "reclaim", "reporting", "once", "weak", "unwind", "timing", "overmark", "overmark-strong"])
 
 
 def apply(chk, rule, table, config=None, only=None, specfn=None, aspects=None):
